@@ -66,14 +66,14 @@ Section Silent.
   (* ---- part A: wakes, channels, drop glue never add an output anywhere ---- *)
   Lemma sx_wake : forall fuel w H, suffX H (wake fuel w H).
   Proof.
-    induction fuel as [|f IH]; intros w H; unfold wake; fold wake; [apply sx_refl|].
-    destruct w as [c s g|q]; [|apply sx_same; reflexivity].
-    set (H1 := if c_alive (gcmd c H) then ucmd c (fun cm => set_ready (c_ready cm ++ [s]) cm) H else H).
-    assert (R1 : suffX H H1) by (subst H1; destruct (c_alive (gcmd c H)); [keep | apply sx_refl]).
-    assert (R2 : suffX H (set_woken g H1)) by (eapply sx_trans; [exact R1 | apply sx_same; reflexivity]).
-    destruct (c_atomic (gcmd c (set_woken g H1))).
-    - eapply sx_trans; [exact R2|]. eapply sx_trans; [|apply IH]. keep.
-    - eapply sx_trans; [exact R2|]. apply sx_same; reflexivity.
+    induction fuel as [|f IH]; intros w H; unfold wake; fold wake;
+      (destruct w as [c s g|q]; [|apply sx_same; reflexivity]);
+      set (H1 := if c_alive (gcmd c H) then ucmd c (fun cm => set_ready (c_ready cm ++ [s]) cm) H else H);
+      (assert (R1 : suffX H H1) by (subst H1; destruct (c_alive (gcmd c H)); [keep | apply sx_refl]));
+      (assert (R2 : suffX H (set_woken g H1)) by (eapply sx_trans; [exact R1 | apply sx_same; reflexivity]));
+      destruct (c_atomic (gcmd c (set_woken g H1))) as [w'|]; try (eapply sx_trans; [exact R2|]; apply sx_same; reflexivity).
+    all: try exact R2.
+    eapply sx_trans; [exact R2|]. eapply sx_trans; [|apply IH]. keep.
   Qed.
   Lemma sx_wake_cell ch H : suffX H (wake_cell ch H).
   Proof. unfold wake_cell. destruct (ch_wk (gch ch H)); [|apply sx_refl]. eapply sx_trans; [|apply sx_wake]. apply sx_same; reflexivity. Qed.
